@@ -5,7 +5,11 @@ import (
 	"errors"
 	"fmt"
 
+	"github.com/protolambda/zrnt/eth2/beacon/bellatrix"
+	"github.com/protolambda/zrnt/eth2/beacon/capella"
 	"github.com/protolambda/zrnt/eth2/beacon/common"
+	"github.com/protolambda/zrnt/eth2/beacon/deneb"
+	"github.com/protolambda/ztyp/tree"
 )
 
 type BeaconBlockValBackend interface {
@@ -79,6 +83,11 @@ func ValidateBeaconBlock(ctx context.Context, block *common.BeaconBlockEnvelope,
 		return GossipValidatorResult{REJECT, errors.New("invalid block signature")}
 	}
 
+	// Conditions on the block body that later forks add to this topic.
+	if err := validateBeaconBlockBody(spec, ch.Genesis().Time, block); err != nil {
+		return GossipValidatorResult{REJECT, err}
+	}
+
 	// [REJECT] The block is proposed by the expected proposer_index for the block's slot in the context of
 	// the current shuffling (defined by parent_root/slot).
 
@@ -120,4 +129,43 @@ func ValidateBeaconBlock(ctx context.Context, block *common.BeaconBlockEnvelope,
 	blockVal.MarkBlock(block.Slot, block.ProposerIndex)
 
 	return GossipValidatorResult{ACCEPT, nil}
+}
+
+// validateBeaconBlockBody checks the conditions of the beacon_block topic on the contents of the block body:
+//
+// Bellatrix: if execution is enabled for the block,
+// [REJECT] The block's execution payload timestamp is correct with respect to the slot --
+// i.e. execution_payload.timestamp == compute_timestamp_at_slot(state, block.slot).
+//
+// Deneb: [REJECT] The length of KZG commitments is less than or equal to the limitation defined in Consensus Layer --
+// i.e. validate that len(body.signed_beacon_block.message.blob_kzg_commitments) <= MAX_BLOBS_PER_BLOCK
+func validateBeaconBlockBody(spec *common.Spec, genesisTime common.Timestamp, block *common.BeaconBlockEnvelope) error {
+	var timestamp common.Timestamp
+	switch body := block.Body.(type) {
+	case *bellatrix.BeaconBlockBody:
+		// A default payload only occurs before the merge, where execution is not enabled:
+		// once the merge is completed the payload has to build on the previous one to be valid at all.
+		empty := bellatrix.ExecutionPayloadType(spec).DefaultNode().MerkleRoot(tree.GetHashFn())
+		if body.ExecutionPayload.HashTreeRoot(spec, tree.GetHashFn()) == empty {
+			return nil
+		}
+		timestamp = body.ExecutionPayload.Timestamp
+	case *capella.BeaconBlockBody:
+		timestamp = body.ExecutionPayload.Timestamp
+	case *deneb.BeaconBlockBody:
+		if count := uint64(len(body.BlobKZGCommitments)); count > uint64(spec.MAX_BLOBS_PER_BLOCK) {
+			return fmt.Errorf("block has %d blob KZG commitments, max is %d", count, spec.MAX_BLOBS_PER_BLOCK)
+		}
+		timestamp = body.ExecutionPayload.Timestamp
+	default:
+		return nil
+	}
+	expected, err := spec.TimeAtSlot(block.Slot, genesisTime)
+	if err != nil {
+		return fmt.Errorf("cannot compute time of slot %d: %v", block.Slot, err)
+	}
+	if timestamp != expected {
+		return fmt.Errorf("execution payload timestamp %d does not match time %d of slot %d", timestamp, expected, block.Slot)
+	}
+	return nil
 }
